@@ -180,6 +180,8 @@ def oracle_ns(path: str, doc: List[Dict[str, Any]], py: List[Dict[str, Any]], in
                 cls = 'class-variable-shadowing-inherited-method-not-documented'
             rec('missing', n, None, pe['t'], cls)
     for n, de in d.items():
+        if de['t'] != 'C' and de.get('c'):
+            rec('invented', n + '.' + de['c'][0]['n'], de['c'][0]['k'], 'nothing is bound inside a function or variable')
         if n not in p:
             if n.startswith(('imp_', '_i')):
                 rec('invented', n, de['k'], 'auxiliary binding (import / loop variable)')
@@ -428,7 +430,8 @@ class Check(PropertyCheck):
         'translator harness/gen/gen_c03.py (fail-closed): _STD_LIB_EXCEPTIONS, MODULE_VARIABLES_META_PARSERS, _CONTROL_FLOW_BLOCKS, '
         'the attribute get_children iterates, the names _handleOldSchoolMethodDecoration accepts',
         'extraction ExtrOcamlBasic only + coq/ocaml/driver.ml; harness/c03*.py, harness/impl/c03_*.py (pretty-printer, adapters)',
-        'oracle inspect.cleandoc (a section variable in the model; the harness applies the real function to both sides)',
+        'oracle inspect.cleandoc (a section variable in the model; the harness applies the real function to the model side); '
+        'docstrings with lone surrogates (escaped by extract_docstring) are not generated',
         'Spec/PyBind.v is hand-written from the language reference and validated against CPython 3.12 on every run',
         'modelled not verified: CPython ast.parse / ast.literal_eval; typing.overload, typing.Final, type comments, __all__/__docformat__ '
         'parsing, __doc__ assignments, setter/deleter decorators, zope/attrs/deprecate extensions, non-ASCII identifiers (isupper) '
@@ -437,16 +440,25 @@ class Check(PropertyCheck):
     assumptions = ['decorators are the builtin names, unshadowed; other decorators return their argument unchanged',
                    'calls on right-hand sides return plain data values; names of builtin classes are not rebound']
     manifest = {
-        'text': ('Theorems over Model/Builder.v (ModuleVistor restricted to MiniPy) against the independent Spec/PyBind.v (CPython binding '
-                 'semantics of the subset, validated against CPython on every run): per namespace the documented key set equals the set of '
-                 'definitions CPython binds, instance variables excepted, no key twice (C03_names_agree_partial); kinds and docstrings of '
-                 'functions/methods/static/class methods/properties/coroutines/classes agree (C03_kinds_agree_partial, C03_docstring_partial); '
-                 '_annotation_for_value is sound (C03_infer_type_sound). Refuted on the unchanged tree with witnesses: inherited method shadowed '
-                 'by a class variable, string after a property, property assigned through self, ExceptionGroup. Tie: doc_walk vs the real '
-                 'builder on exhaustive template sequences and random packages; oracle pydoctor vs CPython import.'),
-        'note': ('Partial: statements in else/except/finally suites and untaken ifs, aliases, annotations without value, rebinding a '
-                 'function by assignment are outside the agreed subset. Trusted: Coq kernel, translator, extraction, harness, cleandoc oracle.'),
-        'technique': 'Coq proof (simulation invariant between builder walk and binding semantics) + two-sided correspondence + differential oracle',
+        'text': ('Theorems over Model/Builder.v (ModuleVistor restricted to the MiniPy statement language, with addObject/handleDuplicate, '
+                 'Class.find, currentAttr, is_exception and the instance-variable post-processing) against the independent Spec/PyBind.v '
+                 '(CPython binding semantics of the subset, validated against a real CPython import on every run): in the module and in every '
+                 'class namespace the documented keys are pairwise distinct, contain every definition Python binds and nothing else except '
+                 'instance variables (C03_names_agree_partial, C03_names_agree_module_partial, C03_classes_reached_partial); kind, is_async '
+                 'and docstring of functions/methods/class methods/static methods (decorator and old-style wrapping)/properties/classes agree, '
+                 'EXCEPTION iff subclass of BaseException for module-level classes (C03_kinds_agree_partial, C03_docstring_partial, '
+                 'C03_module_docstring); attribute docstrings follow currentAttr (C03_docstring_attribute, _not_after_def/_class/_augassign); '
+                 '_annotation_for_value is sound for every literal value (C03_infer_type_sound, _empty_bare, _bool_not_int). Refuted on the '
+                 'unchanged tree, with witnesses and known-finding entries: class variable shadowing an inherited method, string after a '
+                 'property, property assigned through self, ExceptionGroup/EncodingWarning bases, stale type after tuple unpacking. Tie: '
+                 'doc_walk vs the real builder on every sequence of <= 2 (quick) / 3 (thorough) statement templates and on random packages; '
+                 'oracle = pydoctor build vs CPython import of the same generated packages.'),
+        'note': ('Partial: bindings in else/except/finally suites and untaken ifs, aliases `x = y`, annotations without value, rebinding a '
+                 'function or class by a plain assignment, `x = property(f)`, setter/deleter/overload decorators are outside the agreed subset '
+                 '(py_exec = None); CLASS/EXCEPTION is proved for module-level classes only; imported base classes are checked by the oracle '
+                 'only. Trusted: Coq kernel, translator gen_c03.py, extraction + driver, harness and pretty-printer, cleandoc oracle.'),
+        'technique': 'Coq proof (simulation invariant between the builder walk and CPython binding semantics; induction on literal values) '
+                     '+ regenerated tables + two-sided correspondence + differential oracle against CPython',
     }
 
     # ------------------------------------------------------------------ case streams
@@ -455,7 +467,7 @@ class Check(PropertyCheck):
         self.exhaustive = True
         self.stats['exhaustive_max_templates'] = 2 if tier == 'quick' else 3
         self.stats['exhaustive_modules'] = sum(len(p['mods']) - 1 for p in out)
-        nrand = 400 if tier == 'quick' else 20000
+        nrand = 1200 if tier == 'quick' else 20000
         n_pk = 0
         made = 0
         while made < nrand:
@@ -619,6 +631,12 @@ class Check(PropertyCheck):
             raise RuntimeError('broken check: the oracle was applied to only %d modules' % self.stats.get('oracle_modules', 0))
         self.stats['distinct_nontrivial'] = len(self.nontrivial)
         self.nontrivial = set(range(len(self.nontrivial)))      # keep evidence small
+        # shrink the smallest oracle failures that are not known findings (the driver reports at most three)
+        known, _ = lib.load_known_findings(self.id)
+        fresh = sorted([v for v in out if v.kind == 'oracle' and self.classify_known(v, known) is None and 'focus' in (v.case or {})],
+                       key=lambda v: len(json.dumps(v.case, default=str)))[:3]
+        for v in fresh:
+            out[out.index(v)] = self.shrink(v)
         return out
 
     # ------------------------------------------------------------------ search / known / replay
